@@ -1,6 +1,7 @@
 import ExprModel.Props.C13
 import ExprModel.Props.C12
 import ExprModel.Proofs.LocBridge
+import ExprModel.Proofs.ParserLocs
 /-
 C13, end to end: the layers of Props/C13.lean (source / snippet / bind, location facts, location map)
 composed with the lexer (C12), parser (C11) and compiler / VM (C01) models.
@@ -68,5 +69,46 @@ theorem token_error_snippet_is_its_line (cc : CharClass) (hnl : cc.isSpace '\n' 
 /-- non-vacuity: a two-line, multi-byte source -/
 example : (Lex.lex CharClass.ascii LexTables.std "'é' +\n  xy").toOption.map (·.map (·.loc)) =
     some [⟨1, 0⟩, ⟨1, 4⟩, ⟨2, 2⟩, ⟨2, 3⟩] := by decide
+
+/-! ## (2) Nodes: `node_locations_goal` discharged from the parser model -/
+
+/-- **`parse_locs_from_tokens`**: every node of a successfully parsed tree (at any depth; conditionals
+    included since fix 4de6c8c) carries the location of one of the input tokens — for every token list,
+    every table of operators and every number / regexp oracle. -/
+theorem parse_locs_from_tokens (cfg : Parser.Cfg) (ts : List Token) (root : Node)
+    (h : Parser.parse cfg ts = .ok root) : root.AllLoc (fun l => ∃ t ∈ ts, t.loc = l) := by
+  refine Parser.parse_allLoc _ cfg ts root ⟨?_, ?_⟩ h
+  · intro t ht; exact ⟨t, (List.dropLast_subset _ ht), rfl⟩
+  · intro t ht _; exact ⟨t, List.mem_of_getLast? ht, rfl⟩
+
+/-- … and never the location of the EOF token, when EOF occurs only at the end (as `lex` guarantees) -/
+theorem parse_locs_from_proper_tokens (cfg : Parser.Cfg) (ts : List Token) (root : Node)
+    (heof : ∀ t ∈ ts.dropLast, t.kind ≠ .eof) (h : Parser.parse cfg ts = .ok root) :
+    root.AllLoc (fun l => ∃ t ∈ ts, t.kind ≠ .eof ∧ t.loc = l) := by
+  refine Parser.parse_allLoc _ cfg ts root ⟨?_, ?_⟩ h
+  · intro t ht; exact ⟨t, (List.dropLast_subset _ ht), heof t ht, rfl⟩
+  · intro t ht hk; exact ⟨t, List.mem_of_getLast? ht, hk, rfl⟩
+
+/-- **Lexer and parser composed**: every node of the tree parsed from a source has a location inside
+    that source, at which the snippet shows the first rune of the node's defining token (a non-blank
+    rune).  For every source, multi-line and non-ASCII alike. -/
+theorem node_locations_in_source (cc : CharClass) (hnl : cc.isSpace '\n' = true) (cfg : Parser.Cfg) (src : String)
+    (toks : List Token) (root : Node) (hl : Lex.lex cc LexTables.std src = .ok toks)
+    (hp : Parser.parse cfg toks = .ok root) :
+    root.AllLoc (fun l => ∃ c, cc.isSpace c = false ∧ PointsAt src.toList l c) := by
+  obtain ⟨pre, e, hpre, _, hall⟩ := C12.lex_ends_with_eof cc src toks hl
+  have heof : ∀ t ∈ toks.dropLast, t.kind ≠ .eof := by
+    rw [hpre, List.dropLast_concat]; exact hall
+  refine Node.allLoc_mono ?_ root (parse_locs_from_proper_tokens cfg toks root heof hp)
+  rintro l ⟨t, ht, hk, rfl⟩
+  obtain ⟨_, c, _, hsp, _, hpt⟩ := token_locations_in_source cc hnl src toks hl t ht hk
+  exact ⟨c, hsp, hpt⟩
+
+/-- in particular the root, i.e. the location a checker error about the whole expression gets -/
+theorem root_location_in_source (cc : CharClass) (hnl : cc.isSpace '\n' = true) (cfg : Parser.Cfg) (src : String)
+    (toks : List Token) (root : Node) (hl : Lex.lex cc LexTables.std src = .ok toks)
+    (hp : Parser.parse cfg toks = .ok root) : InSource src.toList root.loc := by
+  obtain ⟨_, _, hpt⟩ := Node.allLoc_root root (node_locations_in_source cc hnl cfg src toks root hl hp)
+  exact hpt.1
 
 end ExprModel.C13
